@@ -599,6 +599,15 @@ def message_concat_types(chk, repo, rule, rels):
     len(...) needs str()/.__str__() around it."""
     n = 0
     for rel in rels:
+        # attributes the module itself uses as lists (receivers of list
+        # methods): they, and slices of them, are not text
+        listy = set()
+        for x in ast.walk(repo.mod(rel).tree):
+            if isinstance(x, ast.Call) and isinstance(
+                    x.func, ast.Attribute) and x.func.attr in (
+                    'append', 'index', 'insert', 'extend') and isinstance(
+                    x.func.value, ast.Attribute):
+                listy.add(x.func.value.attr)
         for node in ast.walk(repo.mod(rel).tree):
             if not (isinstance(node, ast.BinOp) and isinstance(node.op,
                                                                ast.Add)):
@@ -631,6 +640,13 @@ def message_concat_types(chk, repo, rule, rels):
                         o.value, (int, float)) and not isinstance(
                         o.value, bool):
                     bad.append(repr(o.value))
+                base = o.value if isinstance(o, ast.Subscript) and isinstance(
+                    o.slice, ast.Slice) else o
+                if isinstance(base, ast.Attribute) and base.attr in listy:
+                    bad.append(src(o)[:50])
+                if isinstance(o, (ast.List, ast.Tuple, ast.Dict, ast.Set,
+                                  ast.ListComp, ast.DictComp, ast.SetComp)):
+                    bad.append(src(o)[:50])
             if bad:
                 fn = node
                 while fn is not None and not isinstance(fn, ast.FunctionDef):
@@ -638,9 +654,9 @@ def message_concat_types(chk, repo, rule, rels):
                 chk.ob(rule, False, rel, node,
                        key='str-plus-int:%s:%s' % (fn.name if fn else '',
                                                    bad[0]),
-                       what='a message concatenates str with an int-valued '
-                            'expression (%s): TypeError instead of the '
-                            'documented error' % ', '.join(bad),
+                       what='a message concatenates str with an int- or '
+                            'list-valued expression (%s): TypeError instead '
+                            'of the documented error' % ', '.join(bad),
                        found=src(node)[:140])
     chk.ob(rule, True, rels[0], None, key='message-concat-scan',
            qualname='<modules>', what='%d string concatenations scanned for '
